@@ -647,6 +647,9 @@ func (m vpMode) ModeType() os.FileMode { return os.FileMode(m) }
 func vpWalkTree(root string, n *vpNode, cb func(name string, mode os.FileMode) error) error {
 	fi := vpFileInfo{vpBase(root), n}
 	if err := cb(root, fi.Mode()&os.ModeType); err != nil {
+		if err == iofs.SkipDir && n.kind == vpKDir {
+			return nil // skip this directory's entries, carry on with its siblings
+		}
 		return err
 	}
 	if n.kind != vpKDir {
